@@ -27,8 +27,8 @@ PROP = "C11"
 # Repair switches, mirrored by the Coq-side arguments [fixed] [f3] [f4] of Model/Units.v (sent to the extracted
 # model with every case).  1 = the repaired code (what /repo contains), 0 = the code before that repair:
 #   VERIF_C11_FIXED     fix: commits f83491d, d18c9c6 (C11-F1 case-folded lookup in conversion, C11-F2 a^b factors)
-#   VERIF_C11_FIXED_F4  repair of C11-F4 (a unit after the number only counts when the value is a single word)
-#   VERIF_C11_FIXED_F3  repair of C11-F3 (number = first word, unit text = the rest: unit names with blanks)
+#   VERIF_C11_FIXED_F4  fix: commit 537f494, C11-F4 (a unit after the number only counts when the value is a single word)
+#   VERIF_C11_FIXED_F3  fix: commit 0669633, C11-F3 (number = first word, unit text = the rest: unit names with blanks)
 FIXED = int(os.environ.get("VERIF_C11_FIXED", "1"))
 FIXED_F4 = int(os.environ.get("VERIF_C11_FIXED_F4", str(FIXED)))
 FIXED_F3 = int(os.environ.get("VERIF_C11_FIXED_F3", str(FIXED)))
@@ -38,9 +38,9 @@ PRE_FIX_FINDINGS = {
                "than the derived lower-case key made value_as_default_unit raise TypeError"),
     "C11-F2": (lambda: not FIXED, "before fix: d18c9c6 -- conversionFactor written a^b read as 10e6: value 10x too "
                "large per caret"),
-    "C11-F3": (lambda: not FIXED_F3, "before the F3 repair -- a declared unit name that contains a blank ('degree "
+    "C11-F3": (lambda: not FIXED_F3, "before fix: 0669633 -- a declared unit name that contains a blank ('degree "
                "Celsius') was never accepted (UNITS_INVALID)"),
-    "C11-F4": (lambda: not FIXED_F4 and not FIXED_F3, "before the F4 repair -- several words after the number whose "
+    "C11-F4": (lambda: not FIXED_F4 and not FIXED_F3, "before fix: 537f494 -- several words after the number whose "
                "LAST word is an accepted unit drew no UNITS_INVALID; value_as_default_unit raised ValueError"),
 }
 COQ_TARGETS = ["Props/C11.vo", "Extract/ExtractC11.vo"]
@@ -64,8 +64,16 @@ ASSUMPTIONS = [
     "(unamb) and the text before the last blank is not itself a unit spelling (cands = []) -- the only bundled text "
     "with two readings is computed (uV in electricPotentialUnits)",
     "the theorems stated first in Props/C11.v are about the code as it now is (all repair switches true: fix: "
-    "f83491d, d18c9c6 and the repairs of C11-F3, C11-F4); for each switch = false the corresponding full statement "
-    "is refuted by a kernel-evaluated witness, kept as the record of the repaired defect",
+    "f83491d, d18c9c6, 537f494 (C11-F4), 0669633 (C11-F3), all in /repo); for each switch = false the corresponding "
+    "full statement is refuted by a kernel-evaluated witness, kept only as the record of the repaired defect "
+    "(behaviour before that commit)",
+    "texts with more than one reading (only 'uV' in electricPotentialUnits of 8.3.0 / score 2.0.0) are outside the "
+    "iff/value theorems; for them it is proved that acceptance is sound and a defined value is number x factors of "
+    "one genuine reading (C11_value_is_a_reading), and C11_ambiguous_uV states what the code does with 'uV' (symbol "
+    "reading micro-V wins: 3 uV -> 3e-11; 'uv'/'UV' -> the name, 3); the oracle accepts either reading",
+    "C11_string_is_concat / _tag_context_free / _order_irrelevant hold by the shape of the model (the loop of "
+    "_validate_individual_tags_in_hed_string is transcribed as an accumulator without other state); that the "
+    "IMPLEMENTATION carries no state between the tags of a string is tested only (stream 'multi')",
     "the number text is one word; the unit text may have any number of words (unit names with blanks)",
 ]
 
@@ -602,7 +610,9 @@ CORPUS = [
     ("8_3_0", "Duration", ["currencyUnits"], "$ 3", "corpus"),
     ("8_3_0", "Duration", ["currencyUnits"], "3 $", "corpus"),
     ("8_3_0", "Duration", ["currencyUnits"], "3 dollars", "corpus"),
-    ("8_3_0", "Duration", ["electricPotentialUnits"], "3 uV", "corpus"),   # two readings
+    ("8_3_0", "Duration", ["electricPotentialUnits"], "3 uV", "corpus"),   # two readings (C11_ambiguous_uV)
+    ("8_3_0", "Duration", ["electricPotentialUnits"], "3 uv", "corpus"),   # only the name reading
+    ("8_3_0", "Duration", ["electricPotentialUnits"], "3 UV", "corpus"),
     ("8_3_0", "Duration", ["magneticFieldUnits"], "3 fT", "corpus"),
 ]
 
